@@ -172,6 +172,11 @@ func checkStepSpec(hv *helperView, op, mod string, s pathSummary) string {
 				x = "sub(IRB." + f + ",1)"
 				ws = append(ws, wstore{f, "dec", "cell(WAB)." + f, ""})
 			}
+			if op == "DJN" {
+				// the decremented field is zero exactly when the fetched field is one
+				zs = append(zs, triOf(s.conds, "eq(IRB."+f+",1)", used))
+				continue
+			}
 			zs = append(zs, triOf(s.conds, eqAtom(x, "0"), used))
 		}
 		var jump tri
@@ -194,7 +199,10 @@ func checkStepSpec(hv *helperView, op, mod string, s pathSummary) string {
 		}
 	case "CMP", "SEQ", "SNE", "SLT":
 		var ts []tri
-		if mod == "I" && op != "SLT" {
+		if _, whole := s.conds[eqAtom("IRA", "IRB")]; whole && mod == "I" && op != "SLT" {
+			// the two instruction registers compared as whole values: all fields at once
+			ts = append(ts, triOf(s.conds, eqAtom("IRA", "IRB"), used))
+		} else if mod == "I" && op != "SLT" {
 			for _, f := range instrFields {
 				ts = append(ts, triOf(s.conds, eqAtom("IRA."+f, "IRB."+f), used))
 			}
